@@ -1417,21 +1417,22 @@ def comprehension_env(run, model, rule="C06.comprehension-env"):
     built-in of the same name or fails with NameError, so the message shows values Python never computed."""
     NT = ("attr", ("param", "self"), "_name_to_value")
     count = 0
-    for name in ("_execute_comprehension", "_trace_all_with_generator"):
-        fi = model.method("_recompute", "Visitor", name, required=False)
-        if fi is None:
-            continue
-        flow = get_flow(model, fi)
-        run.saw(flow)
-        from .effects import _dynamic_callee
+    from .effects import _dynamic_callee
 
+    # the methods of the visitor that call code looked up at run time (found by that role, not by name)
+    for fi in sorted(model.methods("_recompute", "Visitor"), key=lambda f_: f_.qual):
+        flow = get_flow(model, fi)
         sites = []
         for n in flow.cfg.nodes:
             for call, c, a in calls_in(n):
-                if _dynamic_callee(flow.term(call.func, n)):
+                ct = flow.term(call.func, n)
+                # compiled code is fetched from the namespace it was exec'ed into: a subscript look-up
+                alts_ = ct[1] if ct[0] == "phi" else (ct,)
+                if _dynamic_callee(ct) and all(a_[0] == "idx" for a_ in alts_):
                     sites.append((n, call))
         if not sites:
-            raise AnalysisError("%s: the call of the compiled code was not found" % fi.qual)
+            continue
+        run.saw(flow)
         for n, call in sites:
             count += 1
             stars = [strip_sites(flow.term(kw.value, n)) for kw in call.keywords if kw.arg is None]
